@@ -151,19 +151,26 @@ def _probe_families(check, ctx):
 # dynamic side, thorough tier: the race detector
 
 def _harness_dir():
-    """The module directory vlib.core.build_harness built from (a copy with the replace directive pointing at OW_REPO
-    for scratch trees; build_harness has already run when a pre-step is called)."""
+    """The harness module to build from: /verif/harness for /repo; for a scratch tree (OW_REPO) an own copy whose replace
+    directive points there, made the way vlib.core.build_harness makes its copy (own directory name: other contributors clean
+    build/harness-* after their experiments)."""
     if _repo() == "/repo":
         return HARNESS, ""
     tagd = hashlib.sha1(_repo().encode()).hexdigest()[:10]
-    hdir = os.path.join(BUILD, "harness-" + tagd)
-    if not os.path.isdir(hdir):
-        raise Internal("harness module copy %s missing (build_harness not run?)" % hdir)
+    hdir = os.path.join(BUILD, "c05race-" + tagd)
+    with core.Lock("gobuild-c05race-" + tagd):
+        shutil.rmtree(hdir, ignore_errors=True)
+        shutil.copytree(HARNESS, hdir)
+        gm = open(os.path.join(hdir, "go.mod")).read().replace("=> /repo", "=> " + _repo())
+        open(os.path.join(hdir, "go.mod"), "w").write(gm)
+        shutil.copyfile(os.path.join(_repo(), "go.sum"), os.path.join(hdir, "go.sum"))
     return hdir, "-" + tagd
 
 
 def build_race(ctx, pkg, name):
-    hdir, suffix = _harness_dir()
+    if "c05_hdir" not in ctx:
+        ctx["c05_hdir"] = _harness_dir()
+    hdir, suffix = ctx["c05_hdir"]
     out = os.path.join(BUILD, name + suffix)
     with core.Lock("gobuild-" + os.path.basename(out)):
         t0 = time.time()
